@@ -16,6 +16,7 @@
 (*              export concrete cases with the verdict for replay).        *)
 (***************************************************************************)
 EXTENDS Integers, Sequences, TLC, BigField, Json
+\* (P = 2 is excluded: F_2 has no non-boolean element, the digit 2 would be the boolean 0.)
 CONSTANTS FieldMode,   \* "bn254" | "small"
           P,           \* the prime in "small" mode
           N,           \* number of digits
@@ -24,6 +25,7 @@ CONSTANTS FieldMode,   \* "bn254" | "small"
           Variant      \* "code" (faithful) | mutants "start-late", "accept-eq", "swap"
 
 Big == FieldMode = "bn254"
+ASSUME Big \/ P > 2
 BN254R == "21888242871839275222246405745257275088548364400416034343698204186575808495617"
 ModBitsBig == NBitsLE(BN254R, 256)
 ModBit(i) == IF Big THEN (IF i < 256 THEN ModBitsBig[i + 1] ELSE 0)
